@@ -350,7 +350,111 @@ def r5_inner_payload(ctx):
     ctx.floor(rule, n, 2, "encrypt_chunk_with_key call sites in BlteBuilder")
 
 
+def payload_locals(b, call):
+    """locals that carry the Ok / Continue payload of a call result (through map_err / `?` / copies)"""
+    from .lib import TRY_BRANCH
+    hold = {call.dest[0]}
+    out = set()
+    changed = True
+    while changed:
+        changed = False
+        for c in b.calls:
+            if c.args and op_local(c.args[0]) in hold and c.dest and c.dest[0] not in hold and \
+                    (TRY_BRANCH.search(c.name) or TRY_BRANCH.search(c.orig_name or "") or re.search(r"\bResult::<T, E>::(map_err|or_else|inspect_err)$", c.name)):
+                hold.add(c.dest[0])
+                changed = True
+        for (i, j, st) in b.stmts():
+            r = st["r"]
+            if r["k"] == "Use" and r["o"][0]["k"] in ("cp", "mv") and r["o"][0]["p"][0] in hold and len(st["p"]) == 1:
+                p_ = r["o"][0]["p"]
+                if len(p_) == 1 and st["p"][0] not in hold:
+                    hold.add(st["p"][0])
+                    changed = True
+                elif any(isinstance(e, dict) and e.get("d") in ("Continue", "Ok") for e in p_[1:]) and st["p"][0] not in out:
+                    out.add(st["p"][0])
+                    changed = True
+    return out
+
+
+def r6_stream_status(ctx, prefix="cascette_formats"):
+    """a streaming (de)compressor reports 'output buffer full' / 'need more input' through the Status in its Ok value, not as an error: an encoder or
+    decoder that drops it hands back a truncated stream with Ok"""
+    rule = "C01.R6"
+    ctx.rule(rule, "the Status returned by flate2 Compress / Decompress calls is consumed (compared or branched on), never dropped")
+    from .lib import is_discarded
+    n = 0
+    for b in ctx.prog.bodies.values():
+        if not b.krate.startswith(prefix):
+            continue
+        for c in b.calls:
+            if c.bb not in b.live_blocks() or not re.search(r"^flate2::mem::(Compress|Decompress)::(compress|compress_vec|decompress|decompress_vec)$", c.name):
+                continue
+            n += 1
+            ctx.saw(b)
+            pl = payload_locals(b, c)
+
+            def really_used(l, depth=0):
+                """used by something other than a copy into a local that is itself never used (`expr?;` moves the payload into a dead temporary)"""
+                from .facts import uses_of_local
+                for (ubb, uidx, kind) in uses_of_local(b, l):
+                    if kind == "drop" or ubb not in b.live_blocks():
+                        continue
+                    if kind == "assign" and uidx < len(b.blocks[ubb]["s"]):
+                        st_ = b.blocks[ubb]["s"][uidx]
+                        if st_["r"]["k"] == "Use" and len(st_["p"]) == 1 and op_local(st_["r"]["o"][0]) == l and depth < 4:
+                            if really_used(st_["p"][0], depth + 1):
+                                return True
+                            continue
+                    return True
+                return False
+            used = any(really_used(l) for l in pl)
+            ctx.check(used, rule, [b.id, "status", c.name.split("::")[-1]], "the Status is looked at",
+                      "%s calls %s and drops the Status it returns: when the output buffer is too small (incompressible data emits a stored block about every "
+                      "31 KiB) the call reports Ok(Status::Ok / BufError), not an error, and the function returns a truncated stream that the lenient decoder "
+                      "accepts - encode/decode is Ok with the tail missing" % (ctx._stable(b.id), c.name.split("::")[-1]), c.loc())
+    if n == 0:
+        ctx.info("C01.R6: no streaming flate2 Compress / Decompress call in the BLTE codecs today (the Read adapters are used); rule armed for new code")
+
+
+def r7_stored_only_in_mode_none(ctx):
+    """the mode byte a chunk carries is the mode its body was encoded with: ChunkData::new keeps the caller's bytes as they are only on the
+    `mode == None` edge; every other way round the encoder ("nothing to compress" for empty input) writes a body the decoder of that mode cannot read"""
+    rule = "C01.R7"
+    ctx.rule(rule, "ChunkData::new: the body is stored without passing compress_chunk only through the mode == None edge")
+    bs = ctx.prog.find(self_ty=r"\bChunkData\b", item="new", closure=False)
+    bs = [b for b in bs if re.search(r"blte/chunk\.rs$", b.file or "")]
+    if not ctx.anchor(rule, bs, "ChunkData::new"):
+        return
+    b = bs[0]
+    ctx.saw(b)
+    comp = {c.bb for c in b.calls if c.bb in b.live_blocks() and re.search(r"compression::compress_chunk$", c.name)}
+    if not ctx.anchor(rule, comp, "compress_chunk call in ChunkData::new"):
+        return
+    aggs = [i for (i, j, st) in b.stmts() if st["r"]["k"] == "Agg" and str(st["r"].get("adt", "")).endswith("ChunkData") and i in b.live_blocks()]
+    stored = [i for i in aggs if i in b.reachable([0], avoid=comp)]
+    # the mode == None test: a call of PartialEq::eq on CompressionMode / a discriminant comparison with the None variant
+    from .lib import bool_switches
+    none_edges = set()
+    for c in b.calls:
+        if re.search(r"\bPartialEq>?::eq$", c.orig_name or c.name) and "CompressionMode" in (c.full or ""):
+            for (sbb, tt, ft) in bool_switches(b, c.dest[0]):
+                none_edges.add((sbb, tt))
+    ok = bool(stored) and bool(none_edges)
+    for i in stored:
+        # every path to the uncompressed construction passes the true edge of the mode test
+        for (sbb, tt) in none_edges:
+            r_ = b.reachable([0], avoid={tt} | comp)
+            if i in r_ and i != tt:
+                ok = False
+    ctx.check(ok, rule, [b.id, "stored-only-for-none"], "bytes are kept as they are only when mode == None",
+              "ChunkData::new can keep the caller's bytes unencoded on a path other than the `mode == None` edge (an extra shortcut, e.g. for empty input): the "
+              "chunk then carries mode %s with a body that is not in that encoding - LZ4 lacks its size prefix, ZLib is not a zlib stream, E/F are accepted "
+              "where they used to be refused - and the container does not decode" % "Z/4/E/F", b.loc(), sample={"stored_blocks": stored, "none_edges": sorted(none_edges)})
+
+
 def run(ctx):
+    r6_stream_status(ctx)
+    r7_stored_only_in_mode_none(ctx)
     r4_relative_positions(ctx)
     r5_inner_payload(ctx)
     r1_block_index(ctx)
